@@ -13,7 +13,7 @@
 (* computes the expected response through `expect`.  Everything discrete   *)
 (* (order, presence, counts, literals, masks, skips) is fixed here.        *)
 (***************************************************************************)
-EXTENDS Naturals, Sequences, FiniteSets
+EXTENDS Naturals, Integers, Sequences, FiniteSets
 
 \* --- items ---------------------------------------------------------------
 F(f, ty)        == [k |-> "f", f |-> f, ty |-> ty]                 \* drawn field
